@@ -34,6 +34,10 @@ def shards(tier):
         {"name": "predicates-n5-7", "mode": "pred", "examples": n},
         {"name": "readers", "mode": "readers", "examples": n // 2},
         {"name": "returned-tallies", "mode": "tally", "examples": n // 2},
+        # deeper searches: 4..6 candidates, where assertions are created several levels down a dive
+        {"name": "returned-tallies-deep-1", "mode": "tally", "n_min": 4, "n_max": 6, "examples": n},
+        {"name": "returned-tallies-deep-2", "mode": "tally", "n_min": 4, "n_max": 6, "examples": n},
+        {"name": "returned-tallies-deep-3", "mode": "tally", "n_min": 5, "n_max": 6, "examples": n},
     ]
 
 
@@ -71,7 +75,7 @@ def strategy(shard):
             return {"mode": "readers", "contests": contests, "rows": rows}
 
         return readers()
-    return si.profile(n_min=3, n_max=5, max_ballots=40).map(lambda p: dict(p, mode="tally"))
+    return si.profile(n_min=shard.get("n_min", 3), n_max=shard.get("n_max", 5), max_ballots=40).map(lambda p: dict(p, mode="tally"))
 
 
 def _partial_rankings(cands):
